@@ -392,7 +392,22 @@ def c17(case):
                 after = cls.unpack_group(g0, sort_key=key)
                 return {"exc": "none", "pre": [ids.get(id(o), 0) for o in pre], "out": [ids.get(id(o), 0) for o in after],
                         "groups_untouched": [ids.get(id(o), 0) for o in cls.unpack_group(g0)] == [ids.get(id(o), 0) for o in pre]}
-            if a.get("grouped_how") == "sort_grouped":
+            if a.get("grouped_how") in ("into_method", "into_function") and len(lst) >= 2 and container != "PLSSDesc":
+                # two batches: the second goes into the (sorted) groups of the first, with the same sort key - every group
+                # of the result is sorted as a whole.  What the last sort received = the same calls with no key at the end.
+                half = len(lst) // 2
+                first, second = cls(list(lst)[:half]), cls(list(lst)[half:])
+
+                def grp(batch, **kw_):
+                    if a["grouped_how"] == "into_function" and cls is pytrs.TractList:
+                        return pytrs.group_tracts_by(list(batch), attr, **kw_)
+                    return batch.group_by(attr, **kw_)
+                g0 = grp(first, sort_key=key)
+                grp(second, into=g0)
+                g0 = {k_: list(v_) for k_, v_ in g0.items()}
+                g1 = grp(first, sort_key=key)
+                grp(second, into=g1, sort_key=key)
+            elif a.get("grouped_how") == "sort_grouped":
                 g1 = cls.sort_grouped(target.group_by(attr), key)
             else:
                 g1 = target.group_by(attr, sort_key=key)
@@ -1463,6 +1478,15 @@ def c18_group(case):
             ret = second.group_by_nested(arg, into=dct) if a["nested"] else second.group_by(arg, into=dct)
             if ret is not dct:
                 raise AssertionError("group_by(into=d) returned another dict")
+        elif how == "into_empty":
+            # an accumulator that is still empty: the caller keeps ITS dict and ignores what the call returns
+            dct = {}
+            if a.get("into_via") == "function" and cls is pytrs.TractList and not a["nested"]:
+                pytrs.group_tracts_by(list(lst), arg, into=dct)
+            elif a["nested"]:
+                lst.group_by_nested(arg, into=dct)
+            else:
+                lst.group_by(arg, into=dct)
         elif how == "function" and cls is pytrs.TractList and not a["nested"]:
             dct = pytrs.group_tracts_by(list(lst), arg)         # the module-level function, on a plain list
         elif how == "plss" and cls is pytrs.TractList:
